@@ -44,14 +44,32 @@ class Ctx:
         self.disagreements.append(d)
 
     # ---- line-protocol drivers -------------------------------------------------------------
-    def hook(self, cmd, lines, extra_args=()):
-        """answers of the real code, one per request; a request that kills the hook process (abort, e.g. a failed allocation,
-        which catch_unwind cannot catch) is answered `ABORT` and the remaining requests go to a fresh process"""
+    def hook(self, cmd, lines, extra_args=(), loud=True):
+        """answers of the real code, one per request.  No property lets an answer depend on how loud the log is: the requests (a
+        sample of 40 000 when there are more) are answered a second time under the log level of `-vv` (hook commit: RBP_HOOK_LOG),
+        and where the two answers differ both are returned, `LOG-LEVEL-DEPENDENT quiet: .. | at trace level: ..`, which no model answer equals"""
+        lines = list(lines)
+        answers = self._hook_raw(cmd, lines, extra_args)
+        if not loud or not lines:
+            return answers
+        idx = list(range(len(lines)))
+        if len(idx) > 40000:
+            idx = sorted(self.sub_rnd("loud/%s/%d" % (cmd, len(lines))).sample(idx, 40000))
+        again = self._hook_raw(cmd, [lines[i] for i in idx], extra_args, env={"RBP_HOOK_LOG": "trace"}, note=False)
+        self.dist["hook-requests-answered-at-trace-level"] += len(idx)
+        for i, a in zip(idx, again):
+            if a != answers[i]:
+                answers[i] = "LOG-LEVEL-DEPENDENT quiet: %s | at trace level: %s" % (answers[i], a)
+        return answers
+
+    def _hook_raw(self, cmd, lines, extra_args=(), env=None, note=True):
+        """a request that kills the hook process (abort, e.g. a failed allocation, which catch_unwind cannot catch) is answered
+        `ABORT` and the remaining requests go to a fresh process"""
         answers = []
         rest = list(lines)
         guard = 0
         while rest:
-            p = C.run([C.IMPL, "verif-hook", cmd] + list(extra_args), input="\n".join(rest) + "\n")
+            p = C.run([C.IMPL, "verif-hook", cmd] + list(extra_args), input="\n".join(rest) + "\n", env=env)
             out = p.stdout.decode(errors="replace").splitlines()
             if p.returncode == 0 and len(out) == len(rest):
                 answers.extend(out)
@@ -60,7 +78,8 @@ class Ctx:
             k = min(len(out), len(rest) - 1)
             answers.extend(out[:k])
             answers.append("ABORT")
-            self.notes.append("hook %s died (rc=%s) on request %d: %s" % (cmd, p.returncode, len(answers) - 1, rest[k][:120]))
+            if note:
+                self.notes.append("hook %s died (rc=%s) on request %d: %s" % (cmd, p.returncode, len(answers) - 1, rest[k][:120]))
             rest = rest[k + 1:]
             guard += 1
             if guard > 50:
